@@ -32,6 +32,7 @@ var mains = map[string]func(map[string]string){
 	"c01": c01Main,
 	"c04": c04Main,
 	"c05": c05Main,
+	"c11": c11Main,
 }
 
 var startAt int // first case index the worker executes
